@@ -1,6 +1,7 @@
 import CV.Drv.Util
 import CV.Model.Md5
 import CV.Model.AuthSpec
+import CV.Model.AuthLeaves
 /-
 Line protocol of the C20 authentication model (`cvdriver auth`).  All strings are hex of
 their UTF-8 text, `-` = empty, `~` = None / not applicable, `!` = the leaf raised.
@@ -13,6 +14,22 @@ their UTF-8 text, `-` = empty, `~` = None / not applicable, `!` = the leaf raise
   required <field>*          -> ok | fail   (the code's required-field list = the model's)
 
   <b64> = hex of base64.decodebytes(params) | ! | ~        <kv> = k,v;k,v… | = (empty) | ! | ~
+
+The leaves inside the model (CV/Model/AuthLeaves.lean), each compared with the real stdlib function:
+  a2b <hex bytes>            -> hex | !          binascii.a2b_base64 / base64.decodebytes
+  leafb64 <str>              -> hex | !          base64.decodebytes(params.encode('utf-8'))
+  b64enc <hex bytes>         -> hex              base64.b64encode
+  utf8dec <hex bytes>        -> cp <n>* | !      bytes.decode('utf-8'), as code points
+  utf8enc <n>*               -> hex              ''.join(map(chr, ns)).encode('utf-8')
+  strip <str>                -> str              str.strip()
+  httplist <str>             -> part,part… | =   parse_http_list
+  kv <str>                   -> <kv>             parse_keqv_list(parse_http_list(s))
+  spaces <n>*                -> ok | fail <n>    {n | chr(n).isspace()} == the model's isSpace (all code points)
+  authc <legacy|current> <enc> <realm> <method> <hdr|~> <user,pw>*       as `auth`, under concreteLeaves
+  specc <enc> <realm> <method> <hdr|~> <granted 0|1> <login|~> <user,pw>*  as `spec`, under concreteLeaves
+  basichdr <user> <pass>     -> str              the Basic client's header
+  clienthdr <user> <realm> <nonce> <uri> <~|0|1> <~|nc,cnonce> <password> <method> -> str | notok
+                                                 the RFC 2617 Digest client's header
 -/
 namespace CV.Drv.C20
 open CV.Drv CV.Auth
@@ -71,6 +88,24 @@ def showFront : Front → String
   | .unauthorized => "unauth"
   | .raised => "raised"
 
+def showOptBytes : Option Bytes → String
+  | some b => toHex b
+  | none => "!"
+
+def showOptKV : Option KV → String
+  | none => "!"
+  | some [] => "="
+  | some kv => ";".intercalate (kv.map (fun e => s!"{showStr e.1},{showStr e.2}"))
+
+def alg? : String → Option (Option Bool)
+  | "~" => some none
+  | "0" => some (some false)
+  | "1" => some (some true)
+  | _ => none
+
+def qop? (t : String) : Option (Option (Str × Str)) :=
+  if t == "~" then some none else (pair? t).map some
+
 def authStep (s : Unit) : List String → Unit × String
   | "auth" :: pol :: enc :: realm :: method :: hdr :: b :: k :: users =>
     match pol? pol, enc? enc, str? realm, str? method, optStr? hdr, b64? b, kv? k, users.mapM pair? with
@@ -99,6 +134,80 @@ def authStep (s : Unit) : List String → Unit × String
     match fields.mapM strFromHex with
     | some fs => (s, if fs == required then "ok" else "fail")
     | none => (s, "bad-op")
+  | ["a2b", d] =>
+    match fromHex d with
+    | some d => (s, showOptBytes (a2bBase64 d))
+    | none => (s, "bad-op")
+  | ["leafb64", t] =>
+    match str? t with
+    | some t => (s, showOptBytes (concreteLeaves.b64 t))
+    | none => (s, "bad-op")
+  | ["b64enc", d] =>
+    match fromHex d with
+    | some d => (s, toHex (b64Encode d))
+    | none => (s, "bad-op")
+  | ["utf8dec", d] =>
+    match fromHex d with
+    | some d =>
+      match utf8Decode d with
+      | some cs => (s, " ".intercalate ("cp" :: cs.map (fun c => toString c.toNat)))
+      | none => (s, "!")
+    | none => (s, "bad-op")
+  | "utf8enc" :: ns =>
+    match natList ns with
+    | some ns =>
+      if ns.all Nat.isValidChar then (s, toHex (utf8Encode (ns.map Char.ofNat))) else (s, "bad-op")
+    | none => (s, "bad-op")
+  | ["strip", t] =>
+    match str? t with
+    | some t => (s, showStr (strip t))
+    | none => (s, "bad-op")
+  | ["httplist", t] =>
+    match str? t with
+    | some t =>
+      let ps := parseHttpList t
+      (s, if ps.isEmpty then "=" else ",".intercalate (ps.map showStr))
+    | none => (s, "bad-op")
+  | ["kv", t] =>
+    match str? t with
+    | some t => (s, showOptKV (kvLeaf t))
+    | none => (s, "bad-op")
+  | "spaces" :: ns =>
+    match natList ns with
+    | some ns =>
+      match (List.range 0x110000).find? (fun n => isSpace (Char.ofNat n) != ns.contains n) with
+      | none => (s, "ok")
+      | some n => (s, s!"fail {n}")
+    | none => (s, "bad-op")
+  | "authc" :: pol :: enc :: realm :: method :: hdr :: users =>
+    match pol? pol, enc? enc, str? realm, str? method, optStr? hdr, users.mapM pair? with
+    | some pol, some enc, some realm, some method, some hdr, some users =>
+      let L := concreteLeaves
+      let c := checkAuth pol L enc realm method users hdr
+      let ba := basicAuth pol L enc realm method users hdr
+      let da := digestAuth pol L realm method users hdr
+      (s, s!"check={showOut c} basic={showFront ba} digest={showFront da}")
+    | _, _, _, _, _, _ => (s, "bad-op")
+  | "specc" :: enc :: realm :: method :: hdr :: granted :: login :: users =>
+    match enc? enc, str? realm, str? method, optStr? hdr, optStr? login, users.mapM pair? with
+    | some enc, some realm, some method, some hdr, some login, some users =>
+      if granted != "0" && granted != "1" then (s, "bad-op")
+      else
+        let L := concreteLeaves
+        if !(soundOn L enc realm method users hdr (granted == "1")) then (s, "fail bypass")
+        else if !(completeOn L enc realm method users hdr login) then (s, "fail valid-credentials-refused")
+        else (s, "ok")
+    | _, _, _, _, _, _ => (s, "bad-op")
+  | ["basichdr", u, p] =>
+    match str? u, str? p with
+    | some u, some p => (s, showStr (basicHeader u p))
+    | _, _ => (s, "bad-op")
+  | ["clienthdr", u, realm, nonce, uri, alg, qop, pw, method] =>
+    match str? u, str? realm, str? nonce, str? uri, alg? alg, qop? qop, str? pw, str? method with
+    | some u, some realm, some nonce, some uri, some alg, some qop, some pw, some method =>
+      let c : Client := ⟨u, realm, nonce, uri, alg, qop⟩
+      if c.ok then (s, showStr (c.header md5Hex pw method)) else (s, "notok")
+    | _, _, _, _, _, _, _, _ => (s, "bad-op")
   | _ => (s, "bad-op")
 
 def authMachine : Machine := ⟨Unit, (), authStep⟩
